@@ -130,6 +130,21 @@ def run(tier):
     loops = [(s, n) for s, n in f.stmts.items() if n["k"] == "CXXForRangeStmt" and
              (f.path(n.get("rangeInit")) or "") == "future_results"]
     if len(loops) != 1:
+        # the verdict computed by a short-circuiting algorithm of <algorithm>: the futures after the first failure are never waited for
+        sc = [s_ for s_, n in f.stmts.items() if n["k"] == "CallExpr" and re.match(r"^std::(all_of|any_of|none_of|find_if|find_if_not)$", (n.get("callee") or "").split("<")[0])
+              and "future_results" in f.text(s_)]
+        if sc:
+            rep.fail("VERDICT-SHORT-CIRCUIT@TFELCheck::execute", "%s: the verdict is computed by %s over future_results: it stops at the first failed check, the "
+                     "later futures are not waited for, so execute can return (and the shared log be closed) while their tasks still run"
+                     % (rel(f.short_loc(sc[0])), (f.stmts[sc[0]].get("callee") or "").split("<")[0]))
+            # the remaining structural clauses read the loop that is gone; the premises of C29/C30 are still evaluated below
+            for pid in ("C30", "C29"):
+                import importlib
+                mod = importlib.import_module(pid)
+                sub = mod.run(tier)
+                for v in sub.violations:
+                    rep.fail("PREMISE-%s:%s" % (pid, v["key"]), "premise of C52 (rule of %s) violated: %s" % (pid, v["msg"]))
+            return rep
         raise AnalysisBroken("verdict loop over future_results not found")
     ls, ln = loops[0]
     body_nodes = set(f.walk(ls))
